@@ -22,6 +22,7 @@ that is shadowed, bound by a pattern, borrowed mutably or assigned in a way that
 import os
 import re
 from rs import GenError, strip_comments, find_fn
+from gen_path import strip_trace
 
 WORKERS = {'exec_syslogprocessor': 'workerText', 'exec_fixedstructprocessor': 'workerFixed',
            'exec_evtxprocessor': 'workerEvtx', 'exec_journalprocessor': 'workerJournal'}
@@ -903,6 +904,29 @@ def generate(repo):
         L.append(f'def {lean} : List Stmt := ' + lean_stmts(st, 0, ftmap))
         L.append('')
         info[lean] = count_nodes(st)
+    # nothing in the dispatcher may make a worker WAIT before it runs its per-file function: the coordinator prints nothing until every
+    # live source has delivered FileInfo and a first message, while a worker with more messages than the channel holds cannot finish before
+    # the coordinator prints; a pool / semaphore / lock taken here therefore deadlocks once there are more sources than slots (seeded C06-d)
+    _, dbody, _ = find_fn(src, DISPATCH)
+    dflat = re.sub(r'\s+', ' ', strip_trace(dbody))
+    mm = re.search(r'match thread_init_data\.2 \{', dflat)
+    if not mm:
+        raise GenError(f'{DISPATCH}: `match thread_init_data.2 {{` not found')
+    before, after = dflat[:mm.start()], dflat[mm.end():]
+    blocking = re.compile(r'\.send\(|\.recv\(|\.recv_timeout\(|\.try_recv\(|\.lock\(|\.read\(\)|\.write\(\)|\.wait\(|\.acquire|sleep\(|\.join\(|park\(|Barrier|Condvar|Semaphore')
+    starts_unconditionally = blocking.search(before) is None
+    # after the match only the closing of the function may follow (the worker calls are in tail position)
+    depth, i = 1, 0
+    while i < len(after) and depth:
+        depth += {'{': 1, '}': -1}.get(after[i], 0)
+        i += 1
+    tail = after[i:].strip().rstrip('}').strip()
+    nothing_after = tail == ''
+    L.append(f'/-- `{DISPATCH}`: no channel / lock / semaphore / sleep operation precedes the dispatch `match` (`true`): a worker thread, once spawned,')
+    L.append('reaches its per-file function without waiting for any other thread -/')
+    L.append(f'def WORKER_STARTS_UNCONDITIONALLY : Bool := {"true" if starts_unconditionally else "false"}')
+    L.append(f'/-- `{DISPATCH}`: nothing follows the dispatch `match` -/')
+    L.append(f'def WORKER_DISPATCH_IS_LAST : Bool := {"true" if nothing_after else "false"}')
     L.append(f'/-- `{DISPATCH}`: each call of a worker function is in tail position and moves the sender into it -/')
     L.append('def workerThread : List Stmt := ' + lean_dispatch(dstm, 0, ftmap))
     L += ['',
